@@ -2,6 +2,7 @@ import DracoModel.IO.Check
 import DracoProofs.IOStl
 import DracoProofs.IOPly
 import DracoProofs.IOObj
+import DracoProofs.IOObjPoints
 /-
   C15 — file formats: writing a geometry with the library's STL / PLY / OBJ encoder and reading the
   file back yields the same geometry (property theorems only; models in DracoModel/IO/*, proofs in
@@ -28,10 +29,17 @@ import DracoProofs.IOObj
       `obj_precision`               — every re-parsed component is `r` of the source component; with
                                       `∀ b, close b (r b)` it is `close` to it (the 6-decimal bound is
                                       a hypothesis on the codec: `_partial`, see below).
-    * the property is FALSE of the code on OBJ point clouds / face-less meshes
-      (`obj_pointcloud_pairing_violation`, `obj_pointcloud_unreadable`) and, for the exact-seams
-      reading, on meshes with two vertices closer than the 6-decimal resolution
-      (`obj_weld_violation`); all three replayed on the real library (see the slice report).
+    * `obj_pointcloud_roundtrip`    — OBJ point clouds and meshes without faces (the per-point branch
+                                      of the writer, /repo 55a4a4d), any number codec: the result is
+                                      the *set* of re-parsed source points (a map φ from source
+                                      points onto result points keeps the value tuple; result points
+                                      are pairwise different).  That merged points keep the order of
+                                      first occurrence is not stated (correspondence / oracle only).
+    * historical: the writer before 55a4a4d (`Obj.encodeTablesE`) attached attributes to the wrong
+      points / produced unreadable files on OBJ point clouds (`obj_pointcloud_pairing_violation`,
+      `obj_pointcloud_unreadable`, about the old writer only).  For the exact-seams reading the
+      property is false on meshes with two vertices closer than the 6-decimal resolution
+      (`obj_weld_violation`, inside the property's stated tolerance).
 
   `_partial` / not proved in Lean: that the C++ text codec (`snprintf("%F")` / `parser::ParseFloat`,
   model `Obj.f32Codec`) satisfies `close b (r b)` with the bound 0.5·10⁻⁶ + ulp — it involves double
@@ -243,16 +251,7 @@ example : List.Forall₂ (fun b b' => b' = b % 2 ^ 32) (Obj.floatsAt exPos 1 3)
     (Obj.comps 3 (Obj.rtValue (· % 2 ^ 32) exPos 3 1)) :=
   obj_precision (· % 2 ^ 32) exPos 3 1 (fun _ => Nat.mod_lt _ (by decide)) _ (fun _ _ => rfl)
 
-/-! ## where the property is false of the code (faithful model, concrete witnesses)
-
-  All three witnesses were replayed on the unchanged library (`ObjEncoder::EncodeToBuffer` +
-  `ObjDecoder::DecodeFromBuffer`) with the same outcome. -/
-
-/-- result of writing `g` as OBJ and reading it back, with codec `c` -/
-def objRoundTrip {Tok : Type} (c : Obj.NumCodec Tok) (asMesh : Bool) (g : Geometry) : Option (Res Geometry) :=
-  match Obj.encodeE c g with
-  | .ok ls => some (Obj.decodeE c asMesh ls)
-  | .error _ => none
+/-! ## OBJ point clouds -/
 
 def n001 : Bytes := f0 ++ f0 ++ f1
 def n100 : Bytes := f1 ++ f0 ++ f0
@@ -267,17 +266,81 @@ def exCloudSwapped : Geometry :=
       { attType := tNORMAL, dataType := dtFLOAT32, numComponents := 3, normalized := false, uniqueId := 1,
         numValues := 2, map := some [1, 0], values := n001 ++ n100 } ] }
 
-/-- **OBJ point clouds: attributes get attached to the wrong points.**  `ObjEncoder` writes the
-    value *tables* (`v` / `vn` lines) and, having no faces, no indices; `ObjDecoder` then pairs the
-    i-th `v` with the i-th `vn`.  Even with an exact number codec the normal of point 0, (1,0,0) in
-    the source, comes back as (0,0,1). -/
+/-- **OBJ round trip of point clouds and meshes without faces, record level, any number codec.**
+    `g` is a valid point cloud, or a mesh without faces (`Obj.perPoint`), with at least one point,
+    whose first POSITION and (if non-empty) first TEX_COORD / NORMAL attributes are float32.  Writing
+    and reading back (into a `Mesh` or a `PointCloud`, `asMesh`) succeeds; the result has no faces,
+    float32 attributes POSITION ×3, TEX_COORD ×2 (if written), NORMAL ×3 (if written) in this order,
+    and there is a map `φ` from source points **onto** result points such that point `φ p` carries
+    exactly the re-parsed values of source point `p` (`Obj.rtTuple`: attribute type and value bytes,
+    each float component `b` replaced by `r b`), and no two result points carry the same values.
+    I.e. the result is the set of re-parsed source points: `ObjDecoder` merges equal points. -/
+theorem obj_pointcloud_roundtrip {Tok : Type} (c : Obj.NumCodec Tok) (r : Nat → Nat) (g : Geometry)
+    (pos : Attribute) (asMesh : Bool)
+    (hpp : Obj.perPoint g = true) (hnp : g.numPoints ≠ 0)
+    (hpos : g.ioNamedAtt tPOSITION = some pos) (hvalid : g.valid = true)
+    (hpdt : pos.dataType = dtFLOAT32)
+    (htdt : ∀ t, Obj.texOf g = some t → t.dataType = dtFLOAT32)
+    (hndt : ∀ n, Obj.nrmOf g = some n → n.dataType = dtFLOAT32)
+    (hcp : Obj.CodecOn c r pos 3) (hct : Obj.OptCodecOn c r 2 (Obj.texOf g))
+    (hcn : Obj.OptCodecOn c r 3 (Obj.nrmOf g)) :
+    ∃ (lines : List (Obj.Line Tok)) (g' : Geometry) (φ : Nat → Nat),
+      Obj.encodeE c g = .ok lines ∧ Obj.decodeE c asMesh lines = .ok g' ∧
+      g'.isMesh = asMesh ∧ g'.faces = [] ∧
+      (∀ a' ∈ g'.atts, a'.dataType = dtFLOAT32 ∧
+        a'.numComponents = (if a'.attType = tTEX_COORD then 2 else 3)) ∧
+      (∀ p, p < g.numPoints → φ p < g'.numPoints ∧
+        pointTuple g' (φ p) = Obj.rtTuple r pos (Obj.texOf g) (Obj.nrmOf g) p) ∧
+      (∀ q, q < g'.numPoints → ∃ p, p < g.numPoints ∧ φ p = q) ∧
+      (∀ p q, p < g'.numPoints → q < g'.numPoints → pointTuple g' p = pointTuple g' q → p = q) :=
+  Obj.points_roundtrip c r g pos asMesh hpp hnp hpos hvalid hpdt htdt hndt hcp hct hcn
+
+/-- the hypotheses hold on the input on which the old writer failed (2 points, normals mapped
+    (1, 0)), with the exact codec; point 0 must come back with the normal (1,0,0) -/
+example : Obj.perPoint exCloudSwapped = true ∧ exCloudSwapped.numPoints ≠ 0 ∧ exCloudSwapped.valid = true ∧
+    Obj.texOf exCloudSwapped = none ∧
+    (∃ pos nrm, exCloudSwapped.ioNamedAtt tPOSITION = some pos ∧ pos.dataType = dtFLOAT32 ∧
+      Obj.nrmOf exCloudSwapped = some nrm ∧ nrm.dataType = dtFLOAT32 ∧
+      Obj.rtTuple id pos none (some nrm) 0 = [(tPOSITION, f1 ++ f0 ++ f0), (tNORMAL, n100)]) := by
+  refine ⟨by decide, by decide, by decide, by decide, _, _, rfl, by decide, rfl, by decide, by decide⟩
+
+example (pos nrm : Attribute) : Obj.CodecOn exactCodec id pos 3 ∧ Obj.OptCodecOn exactCodec id 3 (some nrm) :=
+  ⟨fun _ _ _ _ => rfl, fun _ _ _ _ => rfl⟩
+
+/-! ## historical witnesses and a tolerance witness
+
+  `obj_pointcloud_pairing_violation` / `obj_pointcloud_unreadable` are statements about the writer
+  **before** /repo commit 55a4a4d (`Obj.encodeTablesE`: value tables for every geometry); they were
+  replayed on the library of that time.  On the same inputs the current writer (`Obj.encodeE`)
+  round-trips (`obj_pointcloud_roundtrip` above and the second halves of the two theorems).
+  `obj_weld_violation` holds of the current code and is inside the property's 6-decimal tolerance. -/
+
+/-- result of writing `g` as OBJ and reading it back, with codec `c` -/
+def objRoundTrip {Tok : Type} (c : Obj.NumCodec Tok) (asMesh : Bool) (g : Geometry) : Option (Res Geometry) :=
+  match Obj.encodeE c g with
+  | .ok ls => some (Obj.decodeE c asMesh ls)
+  | .error _ => none
+
+/-- the same with the pre-55a4a4d writer -/
+def objRoundTripOld {Tok : Type} (c : Obj.NumCodec Tok) (asMesh : Bool) (g : Geometry) : Option (Res Geometry) :=
+  match Obj.encodeTablesE c g with
+  | .ok ls => some (Obj.decodeE c asMesh ls)
+  | .error _ => none
+
+/-- **Pre-fix writer, OBJ point clouds: attributes got attached to the wrong points.**  The old
+    `ObjEncoder` wrote the value *tables* (`v` / `vn` lines) and, having no faces, no indices;
+    `ObjDecoder` then pairs the i-th `v` with the i-th `vn`.  Even with an exact number codec the
+    normal of point 0, (1,0,0) in the source, came back as (0,0,1).  The current writer returns it. -/
 theorem obj_pointcloud_pairing_violation :
     exCloudSwapped.valid = true ∧
     (exCloudSwapped.atts[1]?.map (·.ioPointValue 0)) = some n100 ∧
-    (match objRoundTrip exactCodec false exCloudSwapped with
+    (match objRoundTripOld exactCodec false exCloudSwapped with
      | some (.ok g') => g'.atts[1]?.map (fun a => (a.attType, a.ioPointValue 0))
      | _ => none) = some (tNORMAL, n001) ∧
-    checkObjPoints exactCodec exCloudSwapped = false := by decide
+    (match objRoundTrip exactCodec false exCloudSwapped with
+     | some (.ok g') => g'.atts[1]?.map (fun a => (a.attType, a.ioPointValue 0))
+     | _ => none) = some (tNORMAL, n100) ∧
+    checkObjPoints exactCodec exCloudSwapped = true := by decide
 
 /-- the same cloud with a one-entry normal table shared by both points -/
 def exCloudShared : Geometry :=
@@ -288,17 +351,19 @@ def exCloudShared : Geometry :=
       { attType := tNORMAL, dataType := dtFLOAT32, numComponents := 3, normalized := false, uniqueId := 1,
         numValues := 1, map := some [0, 0], values := n001 } ] }
 
-/-- **OBJ point clouds (and meshes without faces) whose tables differ in size cannot be read back**:
-    the writer succeeds, the reader rejects its output ("Invalid number of normals for a point
-    cloud"). -/
+/-- **Pre-fix writer: OBJ point clouds (and meshes without faces) whose tables differ in size could
+    not be read back**: the old writer succeeded, the reader rejected its output ("Invalid number of
+    normals for a point cloud").  The current writer's output is read back. -/
 theorem obj_pointcloud_unreadable :
     exCloudShared.valid = true ∧
-    (match objRoundTrip exactCodec false exCloudShared with
+    (match objRoundTripOld exactCodec false exCloudShared with
      | some (.error .reject) => true
      | _ => false) = true ∧
-    (match objRoundTrip exactCodec true { exCloudShared with isMesh := true } with
+    (match objRoundTripOld exactCodec true { exCloudShared with isMesh := true } with
      | some (.error .reject) => true
-     | _ => false) = true := by decide
+     | _ => false) = true ∧
+    checkObjPoints exactCodec exCloudShared = true ∧
+    checkObjPoints exactCodec { exCloudShared with isMesh := true } = true := by decide
 
 /-- a codec that prints 1.00000012 (0x3f800001) and 1.0 (0x3f800000) alike — what `%F` does -/
 def sixDecimalCodec : Obj.NumCodec Nat :=
